@@ -168,6 +168,14 @@ impl NodeDrive {
                         );
                     } else {
                         log::debug!("To reclame_space nothing need to be done on delete");
+                        // The rewritten files no longer hold this key: forget the tombstone, its
+                        // disk offset is stale and must not be updated in place later
+                        let mut map = db.map.write().unwrap();
+                        if let Some(current) = map.get(&key) {
+                            if current.state == ValueStatus::Deleted {
+                                map.remove(&key);
+                            }
+                        }
                     }
                 }
             }
